@@ -209,6 +209,7 @@ def summarize(pid, tier, seed, results, wall, mods):
     errors = []
     known_lines = []
     functions = {}
+    preconditions = {}
     inlined = set()
     dropped = set()
     trusted = set()
@@ -230,6 +231,10 @@ def summarize(pid, tier, seed, results, wall, mods):
             paths += r["paths"]
             for q, info in r["functions"].items():
                 functions[q] = info
+            pre = preconditions.setdefault(r["target"], [])
+            for c in r.get("requires", []):
+                if c not in pre and len(pre) < 30:
+                    pre.append(c)
             inlined |= set(r["inlined"])
             dropped |= set(r["dropped"])
             trusted |= set(r.get("trusted", []))
@@ -289,6 +294,6 @@ def summarize(pid, tier, seed, results, wall, mods):
                 errors.append("%s: %s %s" % (e["name"], v, e.get("detail", "")))
     return dict(pid=pid, tier=tier, seed=seed, obligations=obligations, discharged=discharged, by_backend=by_backend,
                 solver_s=solver_s, violations=violations, undecided=undecided, errors=errors, known_lines=known_lines,
-                functions=functions, inlined=sorted(inlined), dropped=sorted(dropped), trusted=sorted(trusted),
+                functions=functions, preconditions=preconditions, inlined=sorted(inlined), dropped=sorted(dropped), trusted=sorted(trusted),
                 paths=paths, cross=cross, bounded=bounded, samples=samples, covers_bad=covers_bad,
                 lemmas=lemma_names, wall=wall, n_cases=n_cases)
